@@ -76,6 +76,10 @@ def _event(name, args, kwargs, res):
             e["rel"] = 0
         if fn == "data":
             e["text"] = enc.text(msg)
+        if fn in ("hex2int", "bin2int") and isinstance(res, int) and not isinstance(res, bool) and abs(res) > enc.LIM:
+            # an integer conversion of a whole payload (an internal use of the helper, recorded because its caller is not a
+            # wrapped name): the value does not fit TLC's 32-bit integers, the event is not judged (C15 states the same bound)
+            return None
         e["res"] = enc.res(res, den) if not isinstance(res, BaseException) else enc.exc(res)
         return e
     except Exception:  # noqa: BLE001 - an argument shape we do not model: skip the call
